@@ -114,11 +114,19 @@ func (s *Server) Call(argv []string) (Resp, error) {
 		}
 		s.cmd.Process.Kill()
 		s.cmd.Wait()
-		tail := s.stderr.String()
-		if len(tail) > 300 {
-			tail = tail[:300]
+		// only the headline of the runtime's report (the rest contains addresses and goroutine ids)
+		headline := ""
+		for _, l := range strings.Split(s.stderr.String(), "\n") {
+			l = strings.TrimSpace(l)
+			if headline == "" && l != "" {
+				headline = l
+			}
+			if strings.HasPrefix(l, "fatal error:") || strings.HasPrefix(l, "panic:") {
+				headline = l
+				break
+			}
 		}
-		why = "the CLI process died on this command line: " + strings.ReplaceAll(strings.TrimSpace(tail), "\n", " / ")
+		why = "the CLI process died on this command line: " + headline
 	case <-time.After(CallTimeout):
 		s.cmd.Process.Kill()
 		s.cmd.Wait()
